@@ -12,15 +12,16 @@ using namespace mcb;
 static double ival(int i, int j, int set, int salt) { return double(((i * 7 + j * 3 + set * 5 + salt * 11 + i * j) % 7) - 3); }
 
 // ---------------- d_matrix_product
-// Storage of the arguments: 0 plain column-major, 1 row-major, 2 views into larger matrices (outer stride != rows):
+// Storage of the arguments: 0 plain column-major, 1 row-major, 2 views into larger matrices (outer stride != rows),
+// 3 dynamically sized matrices (Eigen::MatrixXd):
 // "returns the product rule" cannot depend on how the caller stores the factors.
 template<int N, int NV, int Var>
 static double dmp_case(int set)
 {
   constexpr int RM = (Var == 1 && N > 1) ? Eigen::RowMajor : (N == 1 && N * NV > 1 ? Eigen::RowMajor : Eigen::ColMajor);
   constexpr int RMsq = (Var == 1 && N > 1) ? Eigen::RowMajor : Eigen::ColMajor;
-  using MA  = Eigen::Matrix<double, N, N, RMsq>;
-  using MdA = Eigen::Matrix<double, N, N * NV, RM>;
+  using MA  = std::conditional_t<Var == 3, Eigen::MatrixXd, Eigen::Matrix<double, N, N, RMsq>>;
+  using MdA = std::conditional_t<Var == 3, Eigen::MatrixXd, Eigen::Matrix<double, N, N * NV, RM>>;
   MA A(N, N), Bm(N, N);
   MdA dA(N, N * NV), dB(N, N * NV);
   for (int i = 0; i < N; ++i)
@@ -33,7 +34,7 @@ static double dmp_case(int set)
       dA(i, j) = ival(i, j, set, 3);
       dB(i, j) = ival(i, j, set, 4);
     }
-  Eigen::Matrix<double, N, N * NV> R;
+  Eigen::MatrixXd R;
   if constexpr (Var == 2) {
     // the same data seen through blocks of larger (garbage-filled) matrices
     Eigen::Matrix<double, N + 2, N + 1> bigA, bigB;
@@ -69,21 +70,23 @@ template<int N, int NV>
 static double dmp_rowmajor(int set) { return dmp_case<N, NV, 1>(set); }
 template<int N, int NV>
 static double dmp_views(int set) { return dmp_case<N, NV, 2>(set); }
+template<int N, int NV>
+static double dmp_dynamic(int set) { return dmp_case<N, NV, 3>(set); }
 
 MC_SUBCHECK(d_matrix_product)
 {
   using Fn = double (*)(int);
-  struct Cfg { int n, nv; Fn f[3]; };
-#define CFG(N, NV) {N, NV, {dmp_static<N, NV>, dmp_rowmajor<N, NV>, dmp_views<N, NV>}}
+  struct Cfg { int n, nv; Fn f[4]; };
+#define CFG(N, NV) {N, NV, {dmp_static<N, NV>, dmp_rowmajor<N, NV>, dmp_views<N, NV>, dmp_dynamic<N, NV>}}
   std::vector<Cfg> cfgs = {CFG(1, 1), CFG(1, 2), CFG(1, 3), CFG(2, 1), CFG(2, 2), CFG(2, 3), CFG(3, 1), CFG(3, 2), CFG(3, 3), CFG(4, 1), CFG(4, 2), CFG(4, 3),
     CFG(5, 2), CFG(6, 6), CFG(3, 6), CFG(6, 1)};
 #undef CFG
   const uint64_t nsets = 3;
-  static const char * vn[3] = {"column-major", "row-major", "views into larger matrices"};
-  mc::explore("C05/d_matrix_product/static", cfgs.size() * nsets * 3, [&](mc::Case & c) {
+  static const char * vn[4] = {"column-major", "row-major", "views into larger matrices", "dynamic size (MatrixXd)"};
+  mc::explore("C05/d_matrix_product/static", cfgs.size() * nsets * 4, [&](mc::Case & c) {
     mc::Radix r(c.idx);
     const int set   = int(r.next(nsets));
-    const int var   = int(r.next(3));
+    const int var   = int(r.next(4));
     const auto & cf = cfgs[r.next(cfgs.size())];
     c.desc = [&, set, var] { return mc::fmt("N=%d nvar=%d dataset=%d storage=%s (integer data ival(i,j,set,salt))", cf.n, cf.nv, set, vn[var]); };
     c.judge("d_matrix_product=product rule (exact on integers)", cf.f[var](set), 0.0);
